@@ -47,7 +47,10 @@ type random struct {
 	hasEvict bool // the current statement evicted or un-evicted something
 	nAlloc   map[string]int
 	evicted  map[string]bool // pods evicted by the current statement
-	done     bool
+	// pods un-evicted (Unevict, or Pipeline onto their own node and devices) earlier in the current statement:
+	// evicting one of them again puts a second evict entry of the pod behind a stale one in the same log
+	unevicted map[string]bool
+	done      bool
 }
 
 func (g *random) wf() bool { return g.isWf }
@@ -166,12 +169,32 @@ func (g *random) next(w *world, step int) *cmdSpec {
 			return &cmdSpec{Kind: "evict", Pod: p}
 		}})
 	}
+	// evict again a pod that was un-evicted earlier in this statement (evict, un-evict, evict, un-evict ... of one
+	// pod inside one statement, with whatever else in between)
+	var again []string
+	for _, name := range act {
+		if g.unevicted[name] {
+			again = append(again, name)
+		}
+	}
+	if len(again) > 0 {
+		cs = append(cs, choice{6, func() *cmdSpec {
+			g.hasEvict = true
+			p := u.Pick(r, again)
+			g.evicted[p] = true
+			return &cmdSpec{Kind: "evict", Pod: p}
+		}})
+	}
 	if len(pend) > 0 {
 		cs = append(cs, choice{5, func() *cmdSpec { return g.place(w, u.Pick(r, pend)) }})
 	}
 	if len(evd) > 0 {
 		cs = append(cs, choice{4, func() *cmdSpec { return g.replace(w, u.Pick(r, evd)) }})
-		cs = append(cs, choice{1, func() *cmdSpec { return &cmdSpec{Kind: "unevict", Pod: u.Pick(r, evd)} }})
+		cs = append(cs, choice{3, func() *cmdSpec {
+			p := u.Pick(r, evd)
+			g.unevicted[p] = true
+			return &cmdSpec{Kind: "unevict", Pod: p}
+		}})
 	}
 	if len(g.cps) < 4 {
 		cs = append(cs, choice{3, func() *cmdSpec {
@@ -223,6 +246,7 @@ func (g *random) reset() {
 	g.hasEvict = false
 	g.nAlloc = map[string]int{}
 	g.evicted = map[string]bool{}
+	g.unevicted = map[string]bool{}
 }
 
 // place a Pending pod: Allocate or Pipeline on some node
@@ -284,6 +308,7 @@ func (g *random) replace(w *world, name string) *cmdSpec {
 		if isShared(t) && cp != nil {
 			c.HasGroups, c.Groups = true, append([]string{}, cp.GPUGroups...)
 		}
+		g.unevicted[name] = true // the un-evict branch of Pipeline
 	}
 	return c
 }
@@ -354,7 +379,7 @@ func sharedCluster(r *u.Rng) cycle.Cluster {
 		c.Nodes = append(c.Nodes, core.NodeSpec{Name: fmt.Sprintf("n%d", i+1), Cpu: 16000, Mem: 64 << 30, Gpus: 4, Pods: 110})
 	}
 	c.Queues = []cycle.Queue{{Name: "q1", Deserved: 4, Limit: 0, OverQuota: 1, Priority: 100}, {Name: "q2", Deserved: 2, Limit: 0, OverQuota: 1, Priority: 100}}
-	used := map[string]int{}   // whole devices taken per node
+	used := map[string]int{}     // whole devices taken per node
 	groups := map[string]int64{} // group -> free MiB
 	nj := r.Range(3, 6)
 	for i := 0; i < nj; i++ {
@@ -531,6 +556,16 @@ func Run(dir string, seed uint64, n int, tier string) error {
 		if res.nontrivial {
 			out.NonTrivial(res.label)
 		}
+		if stream != "nonwf" {
+			out.CountN("re-evictions-after-unevict", res.reEvict)
+			out.CountN("second-unevictions(evict,unevict,evict,unevict of one pod in one statement)", res.reUnevict)
+			if res.reUnevict > 0 {
+				out.Count("programs-with-second-uneviction:" + stream)
+			}
+			for k, v := range res.reUnevictThen {
+				out.CountN("second-uneviction-then-"+k, v)
+			}
+		}
 	}
 	for i, k := range corpus() {
 		res := runCase(k.c, k.fails, &scripted{cmds: k.cmds, isWf: k.wf}, 100)
@@ -556,7 +591,7 @@ func Run(dir string, seed uint64, n int, tier string) error {
 				fails[r.Intn(6)] = true
 			}
 		}
-		g := &random{r: r, isWf: !r.Chance(1, 6), maxLen: r.Range(8, 60), nAlloc: map[string]int{}, evicted: map[string]bool{}}
+		g := &random{r: r, isWf: !r.Chance(1, 6), maxLen: r.Range(8, 60), nAlloc: map[string]int{}, evicted: map[string]bool{}, unevicted: map[string]bool{}}
 		res := runCase(c, fails, g, 60)
 		stream := "wf"
 		if !g.isWf {
@@ -584,7 +619,7 @@ func Run(dir string, seed uint64, n int, tier string) error {
 			out.NonTrivial(label)
 		}
 	}
-	out.Stats["rule"] = "command programs (<= 60 commands: Evict / Pipeline / Allocate / Unevict / Checkpoint / Rollback / Discard / Commit / ConvertAllAllocatedToPipelined, nested checkpoints, evict-then-pipeline of the same pod to the same devices / other devices of the node / another node, fractional, multi-fraction, gpu-memory, whole-GPU and CPU-only pods, Cache.Bind / Cache.Evict failures in 1/4 of the programs) run on the real framework.Statement over sessions from cycle.Build; 5/6 follow the status preconditions (wf), 1/6 ignore them (nonwf: run and compared with the model, not monitored); plus real scheduling cycles for the at-most-once clause. Non-trivial = a program with a rollback or discard that undoes at least two operations of different kinds, or a cycle that issued a call; distinct by full program."
+	out.Stats["rule"] = "command programs (<= 60 commands: Evict / Pipeline / Allocate / Unevict / Checkpoint / Rollback / Discard / Commit / ConvertAllAllocatedToPipelined, nested checkpoints, evict-then-pipeline of the same pod to the same devices / other devices of the node / another node, re-eviction of a pod that was un-evicted earlier in the same statement (evict, un-evict, evict, un-evict ... of one pod by Unevict and by Pipeline onto its own node, then Commit / Rollback / Discard; counted in the distribution), fractional, multi-fraction, gpu-memory, whole-GPU and CPU-only pods, Cache.Bind / Cache.Evict failures in 1/4 of the programs) run on the real framework.Statement over sessions from cycle.Build; 5/6 follow the status preconditions (wf), 1/6 ignore them (nonwf: run and compared with the model, not monitored); plus real scheduling cycles for the at-most-once clause. Non-trivial = a program with a rollback or discard that undoes at least two operations of different kinds, or a cycle that issued a call; distinct by full program."
 	out.Stats["queue_usage_observable"] = "Session.QueueAllocatedResources (Allocated only, whole GPUs once >= 1); AllocatedNotPreemptible has no exported reader and is not compared"
 	return out.Flush()
 }
